@@ -34,6 +34,9 @@ func (store *Store) GetAggregatedBalances(ctx context.Context, q GetAggregatedBa
 
 				switch address := value.(type) {
 				case string:
+					if err := validateAddressFilter(address); err != nil {
+						return "", nil, err
+					}
 					return filterAccountAddress(address, "account_address"), nil, nil
 				default:
 					return "", nil, newErrInvalidQuery("unexpected type %T for column 'address'", address)
